@@ -441,6 +441,9 @@ func (r *Rec) Violations() int {
 func (r *Rec) Close(t *testing.T) {
 	r.mu.Lock()
 	defer r.mu.Unlock()
+	if SlowCalls > 0 {
+		r.notes["calls_that_outran_the_watchdog_on_a_busy_machine_and_returned_on_the_longer_leash_or_not"] = SlowCalls
+	}
 	hs := make([]string, 0, len(r.nontrivial))
 	for h := range r.nontrivial {
 		hs = append(hs, strconv.FormatUint(h, 16))
@@ -581,8 +584,37 @@ func Timed(d time.Duration, fn func()) (pi *PanicInfo, ok bool) {
 			return pi, true
 		default:
 		}
+		// a budget hit is not a verdict while the machine is oversubscribed (other checks, builds and campaigns share the cores: a
+		// call that needs a second of processor time may not get it in ten): the leash is five times longer then, and a call that
+		// returns within it was slow, not stuck
+		if busy() {
+			SlowCalls++
+			t2 := time.NewTimer(5 * d)
+			defer t2.Stop()
+			select {
+			case pi = <-done:
+				return pi, true
+			case <-t2.C:
+			}
+		}
 		return nil, false
 	}
+}
+
+// SlowCalls counts the guarded calls that outran their watchdog on a busy machine and were given the longer leash.
+var SlowCalls int
+
+// busy reports whether more runnable tasks than processors were waiting over the last minute (Linux load average).
+func busy() bool {
+	b, err := os.ReadFile("/proc/loadavg")
+	if err != nil {
+		return false
+	}
+	var one float64
+	if _, err := fmt.Sscan(string(b), &one); err != nil {
+		return false
+	}
+	return one > float64(runtime.NumCPU())
 }
 
 // JSON renders v compactly for dumps.
